@@ -354,7 +354,8 @@ def purity(model: Model, run: Run, ex) -> None:
     targets = [c.methods[mname] for cq, c in model.classes.items() for mname in ("pack", "_pack_inner", "get_value") if mname in c.methods]
     # module-level functions that are handed a writer (pack helpers outside asn1.py) are writers too
     for fq, f_ in list(model.functions.items()):
-        if f_.cls is None and not isinstance(f_.node, ast.Lambda) and f_.module != "sansldap.asn1" and \
+        # ... and so is every other method that takes a writer (a pack variant a message hands its writer to)
+        if not isinstance(f_.node, ast.Lambda) and f_.module != "sansldap.asn1" and f_ not in targets and \
                 any(a.annotation is not None and norm(a.annotation).endswith("ASN1Writer") for a in f_.node.args.args + f_.node.args.kwonlyargs):
             targets.append(f_)
     for fi in targets:
@@ -393,6 +394,10 @@ def purity(model: Model, run: Run, ex) -> None:
                             bad = f"module-level object `{x.id}` (shared between all messages and sessions)"
                 if isinstance(x, ast.Attribute) and isinstance(x.ctx, (ast.Store, ast.Del)):
                     bad = f"attribute write `{norm(x)}`"
+                elif isinstance(x, ast.Attribute) and x.attr == "__dict__":
+                    bad = f"`{norm(x)}` (the instance dictionary: state that is not a field)"
+                elif isinstance(x, ast.Call) and isinstance(x.func, ast.Name) and x.func.id == "vars":
+                    bad = f"`{norm(x)[:40]}` (the instance dictionary: state that is not a field)"
                 elif isinstance(x, (ast.Global, ast.Nonlocal)):
                     bad = "global/nonlocal state"
                 elif isinstance(x, ast.Call) and norm(x.func) in ("object.__setattr__", "setattr"):
